@@ -106,7 +106,7 @@ def compare_slots(c, ver, shape, k):
                                          ("server", "SERVER_HANDSHAKE_TRAFFIC_SECRET", "SERVER_TRAFFIC_SECRET_0")):
                 key, iv = R.tls13_traffic_keys(s, c.secrets[lab_ap])
                 want[f"{side}_application_key"], want[f"{side}_application_iv"] = key, iv
-                if shape.get("hs_in_log", True):
+                if shape.get("hs_in_log", True) in (True, "both", side[0]):
                     key, iv = R.tls13_traffic_keys(s, c.secrets[lab_hs])
                 want[f"{side}_handshake_key"], want[f"{side}_handshake_iv"] = key, iv
                 want[f"{side}_key"], want[f"{side}_iv"] = key, iv            # installed first: the handshake key (or its fallback)
@@ -186,7 +186,7 @@ def run(chk):
             for ver in R.VERSIONS:
                 if not R.valid_for(suites()[code], ver):
                     continue
-                shapes = [dict()] + ([dict(abbreviated=True)] if ver != R.TLS13 else [dict(hs_in_log=False)])
+                shapes = [dict()] + ([dict(abbreviated=True)] if ver != R.TLS13 else [dict(hs_in_log=False), dict(hs_in_log="c"), dict(hs_in_log="s")])
                 if suites()[code].mode == "CBC" and ver >= R.TLS10:
                     shapes.append(dict(ext="etm"))
                 for sh in shapes:
@@ -221,7 +221,7 @@ def run(chk):
         ds = []
         for _k in range(rng.randint(2, 4)):
             ver, code, seed, sh = rng.choice(j13)
-            ds.append((ver, code, rng.randrange(1 << 30), dict(hs_in_log=rng.random() < 0.5)))
+            ds.append((ver, code, rng.randrange(1 << 30), dict(hs_in_log=rng.choice([True, False, "c", "s"]))))
         mj.append(ds)
     nm = 0
     for res in pool_map(_tls_multi, mj):
@@ -242,7 +242,7 @@ def run(chk):
         for b in res["bad"]:
             chk.violation(b, dict(reuse=res["job"], why=b))
     # QUIC
-    ku = dict(SuiteSet='{"1301","1302","1303","1304"}', OfferFirst='{"same","other","grease"}', Splits='{<<1>>}', Retries="BOOLEAN", ZeroRtts="{FALSE}", MaxApp="5", MaxGen="3")
+    ku = dict(SuiteSet='{"1301","1302","1303","1304"}', OfferFirst='{"same","other","grease"}', Splits='{<<1>>}', Retries="BOOLEAN", ZeroRtts="BOOLEAN", MaxApp="5", MaxGen="3")
     behs = c02.gen(chk, ku, 20 if quick else 300, chk.seed)
     rng.shuffle(behs)
     qjobs = [(b, rng.randrange(1 << 30), dict(odcid_len=rng.choice([8, 9, 13, 20]), c_cid_len=rng.choice(c02.CIDLENS), s_cid_len=rng.choice(c02.CIDLENS),
